@@ -65,6 +65,14 @@ def finding_matches(f, prop, v):
 
 
 def main(argv):
+    try:
+        return _main(argv)
+    finally:
+        import shutil
+        shutil.rmtree(os.path.join(C.OUT, "cfg", "p%d" % os.getpid()), ignore_errors=True)
+
+
+def _main(argv):
     ap = argparse.ArgumentParser()
     ap.add_argument("prop")
     ap.add_argument("--tier", default=os.environ.get("VERIF_TIER", "quick"))
